@@ -15,6 +15,7 @@ import (
 	"sync/atomic"
 
 	"github.com/graphql-go/graphql"
+	"github.com/graphql-go/graphql/gqlerrors"
 	"github.com/graphql-go/graphql/language/ast"
 
 	"verif/internal/core"
@@ -256,6 +257,21 @@ func (e *Env) thunk(path string, f func() (interface{}, error)) func() (interfac
 	}
 }
 
+// errorValue is the error of a failing outcome: a plain error, or (with
+// Outcomes.ErrorForms) an error value that already looks like a GraphQL error
+// of some other response - the field error reported for it must still carry
+// this field's path and message.
+func errorValue(path string, o *values.Outcomes) error {
+	msg := "E:" + path
+	if o == nil || !o.ErrorForms {
+		return errors.New(msg)
+	}
+	if core.HashString("errform\x00"+path)%2 == 1 {
+		return gqlerrors.FormattedError{Message: msg, Path: []interface{}{"remote", "items", 7, "id"}}
+	}
+	return errors.New(msg)
+}
+
 // produce implements every outcome kind for a field of type t at path.
 func (e *Env) produce(t *model.TypeRef, path string, kind values.Kind, o *values.Outcomes) (interface{}, error) {
 	s := e.Model
@@ -266,7 +282,7 @@ func (e *Env) produce(t *model.TypeRef, path string, kind values.Kind, o *values
 	case values.Nil:
 		return nil, nil
 	case values.Error:
-		return nil, errors.New("E:" + path)
+		return nil, errorValue(path, o)
 	case values.ValueError:
 		v := nat()
 		if v == nil {
@@ -284,7 +300,7 @@ func (e *Env) produce(t *model.TypeRef, path string, kind values.Kind, o *values
 	case values.ThunkNil:
 		return e.thunk(path, func() (interface{}, error) { return nil, nil }), nil
 	case values.ThunkError:
-		return e.thunk(path, func() (interface{}, error) { return nil, errors.New("E:" + path) }), nil
+		return e.thunk(path, func() (interface{}, error) { return nil, errorValue(path, o) }), nil
 	case values.ThunkPanic:
 		return e.thunk(path, func() (interface{}, error) { panic(errors.New("P:" + path)) }), nil
 	case values.ThunkThunk:
